@@ -434,7 +434,7 @@ class KeyWorld(object):
 class KeyExecution(object):
     """Threads operating on one shared VerifyingKey (and, for signing, the curve's generator)."""
 
-    def __init__(self, kw, progs, q_scaled, g_empty):
+    def __init__(self, kw, progs, q_scaled, g_empty, orderless=False):
         self.kw, self.w = kw, kw.w
         w = self.w
         self.s = sched.Sched()
@@ -448,7 +448,7 @@ class KeyExecution(object):
             gen.__dict__[tname] = []                                    # first use of the generator happens in the threads
         x, y = kw.Q
         z = 1 if q_scaled else 5
-        P0 = w.PJ(w.cf, x * z * z % p, y * z * z * z % p, z, n)
+        P0 = w.PJ(w.cf, x * z * z % p, y * z * z * z % p, z, None if orderless else n)   # a key may be built from an order-less point
         self.vk = kw.VK.from_public_point(P0, self.curve, validate_point=False)
         self.vk2 = kw.VK.from_public_point(w.PJ(w.cf, x, y, 1, n), self.curve, validate_point=False)
         self.sig = self.sk.sign_digest(DIGEST, k=K_NONCE, allow_truncate=True)
@@ -575,12 +575,13 @@ def keyworld():
 def explore_keys(args):
     """Every schedule of the real code for one combination of key operations (state caching as in explore); returns
     the access logs of the executed schedules for validation against KeyThreads.tla."""
-    progs, q_scaled, g_empty, cap = args
+    progs, q_scaled, g_empty, cap = args[:4]
+    orderless = args[4] if len(args) > 4 else False
     kw = keyworld()
     # sequential expectation: each program alone
     expected = []
     for prog in progs:
-        ex = KeyExecution(kw, [prog], q_scaled, g_empty)
+        ex = KeyExecution(kw, [prog], q_scaled, g_empty, orderless)
         try:
             while ex.enabled():
                 ex.s.step(1)
@@ -593,7 +594,7 @@ def explore_keys(args):
     problems, logs = [], []
     while stack and execs < cap and len(problems) < 5:
         prefix = stack.pop()
-        ex = KeyExecution(kw, progs, q_scaled, g_empty)
+        ex = KeyExecution(kw, progs, q_scaled, g_empty, orderless)
         execs += 1
         try:
             for t in prefix:
